@@ -201,24 +201,65 @@ theorem alookup_fillRow (gstates : List σ) (qi : σ) (row : List (σ × Option 
 
 /-! ### the second half of `from_dfa` / `from_nfa` -/
 
-/-- What `finishBuild` returns, row by row, when it succeeds (it can only fail in the
-validating constructor). -/
-theorem finishBuild_spec (rxValid : Str → Res Bool) (natName : Nat → σ)
+theorem akeys_ainsert_of_mem' {ρ : Type} [DecidableEq ρ] {k : σ} {v : ρ} {d : List (σ × ρ)}
+    (h : k ∈ akeys d) : akeys (ainsert k v d) = akeys d := by
+  induction d with
+  | nil => simp [akeys] at h
+  | cons e t ih =>
+    obtain ⟨a, b⟩ := e
+    simp only [ainsert]
+    by_cases ha : a = k
+    · simp [ha, akeys]
+    · simp only [ha, if_false, akeys, List.map_cons]
+      have : k ∈ akeys t := by
+        simp only [akeys, List.map_cons, List.mem_cons] at h
+        rcases h with h | h
+        · exact absurd h.symm ha
+        · exact h
+      have := ih this
+      simp only [akeys] at this
+      rw [this]
+
+theorem updRows_keys {ρ : Type} [DecidableEq ρ] (f : ρ → ρ) :
+    ∀ (l : List σ) (rows rows' : List (σ × ρ)), updRows f l rows = .ok rows' →
+      akeys rows' = akeys rows := by
+  intro l
+  unfold updRows
+  induction l with
+  | nil => intro rows rows' h; cases h; rfl
+  | cons q l ih =>
+    intro rows rows' h
+    rw [List.foldlM_cons] at h
+    cases hq : alookup q rows with
+    | none => simp [hq, bind, Except.bind] at h
+    | some row =>
+      simp only [hq, bind, Except.bind] at h
+      rw [ih _ _ h]
+      exact akeys_ainsert_of_mem' (alookup_some_key_mem hq)
+
+/-- `finishBuild` computes an explicit GNFA `g0` (described row by row) and can only fail in
+the validating constructor. -/
+theorem finishBuild_eq (rxValid : Str → Res Bool) (natName : Nat → σ)
     (hinj : Function.Injective natName) (srcStates : List σ) (syms : List Char)
     (rows : List (σ × List (σ × Option Str))) (init : σ) (finals : List σ)
     (hrows : ∀ p, (alookup p rows).isSome ↔ p ∈ srcStates)
-    (hfin : ∀ q ∈ finals, q ∈ srcStates)
-    (g : GNFA σ Str) (h : finishBuild rxValid natName srcStates syms rows init finals = .ok g) :
-    ∃ qi qf, g.init = qi ∧ g.final = qf ∧ qi ∉ srcStates ∧ qf ∉ srcStates ∧ qi ≠ qf ∧
+    (hfin : ∀ q ∈ finals, q ∈ srcStates) :
+    ∃ (g : GNFA σ Str) (qi qf : σ), g.init = qi ∧ g.final = qf ∧ g.syms = syms ∧
+      qi ∉ srcStates ∧ qf ∉ srcStates ∧ qi ≠ qf ∧
       g.states = dedup srcStates ++ [qi] ++ [qf] ∧
-      ∀ p, alookup p g.trans =
+      akeys g.trans = akeys (ainsert qi [(init, (some [] : Option Str))] rows) ∧
+      (∀ p, alookup p g.trans =
         if p = qi then some (fillRow g.states qi [(init, some [])])
         else if p ∈ srcStates then
           (alookup p rows).map fun row =>
             fillRow g.states qi (if p ∈ finals then ainsert qf (some []) row else row)
-        else none := by
-  unfold finishBuild at h
-  simp only at h
+        else none) ∧
+      finishBuild rxValid natName srcStates syms rows init finals =
+        (match g.validateStr rxValid with
+         | .ok _ => .ok g
+         | .error e => .error e) := by
+  unfold finishBuild
+  simp only
   set states0 := dedup srcStates with hs0
   set k0 := addNewState natName states0 0 with hk0
   set qi := natName k0 with hqi
@@ -245,8 +286,8 @@ theorem finishBuild_spec (rxValid : Str → Res Bool) (natName : Nat → σ)
       · simp [hqq]
       · rw [if_neg hqq]; exact (hrows q).mpr (hfin q hq))
   have hfe' : addFinalEdges qf finals rows1 = .ok rows2 := hfe
-  rw [hfe'] at h
-  simp only at h
+  rw [hfe']
+  simp only
   -- None entries
   have hndG : (G.filter fun q => decide (q ≠ qf)).Nodup := by
     apply List.Nodup.filter
@@ -286,15 +327,13 @@ theorem finishBuild_spec (rxValid : Str → Res Bool) (natName : Nat → σ)
       · rw [if_pos hqf']; simpa using hq1
       · rw [if_neg hqf']; exact hq1)
   have hfn' : fillNone G qi qf rows2 = .ok rows3 := hfn
-  rw [hfn'] at h
-  simp only at h
-  -- the validating constructor
-  split at h
-  · rename_i hv
-    have hg := (Except.ok.inj h).symm
-    subst hg
-    refine ⟨qi, qf, rfl, rfl, hqi_src, hqf_src, hne, rfl, ?_⟩
-    intro p
+  rw [hfn']
+  simp only
+  refine ⟨{ states := G, syms := syms, trans := rows3, init := qi, final := qf }, qi, qf,
+    rfl, rfl, rfl, hqi_src, hqf_src, hne, rfl, ?_, ?_, rfl⟩
+  · show akeys rows3 = akeys rows1
+    rw [updRows_keys _ _ _ _ hfn, updRows_keys _ _ _ _ hfe]
+  · intro p
     show alookup p rows3 = _
     rw [hget3, hget2, hget1]
     by_cases hpqi : p = qi
@@ -314,6 +353,29 @@ theorem finishBuild_spec (rxValid : Str → Res Bool) (natName : Nat → σ)
         rw [if_neg hnot, if_neg hpf, if_neg hps]
         have := (hrows p).not.mpr hps
         simpa using this
+
+/-- What `finishBuild` returns, row by row, when it succeeds. -/
+theorem finishBuild_spec (rxValid : Str → Res Bool) (natName : Nat → σ)
+    (hinj : Function.Injective natName) (srcStates : List σ) (syms : List Char)
+    (rows : List (σ × List (σ × Option Str))) (init : σ) (finals : List σ)
+    (hrows : ∀ p, (alookup p rows).isSome ↔ p ∈ srcStates)
+    (hfin : ∀ q ∈ finals, q ∈ srcStates)
+    (g : GNFA σ Str) (h : finishBuild rxValid natName srcStates syms rows init finals = .ok g) :
+    ∃ qi qf, g.init = qi ∧ g.final = qf ∧ qi ∉ srcStates ∧ qf ∉ srcStates ∧ qi ≠ qf ∧
+      g.states = dedup srcStates ++ [qi] ++ [qf] ∧
+      ∀ p, alookup p g.trans =
+        if p = qi then some (fillRow g.states qi [(init, some [])])
+        else if p ∈ srcStates then
+          (alookup p rows).map fun row =>
+            fillRow g.states qi (if p ∈ finals then ainsert qf (some []) row else row)
+        else none := by
+  obtain ⟨g0, qi, qf, h1, h2, _, h3, h4, h5, h6, _, h7, heq⟩ :=
+    finishBuild_eq rxValid natName hinj srcStates syms rows init finals hrows hfin
+  rw [heq] at h
+  split at h
+  · have hg := (Except.ok.inj h).symm
+    subst hg
+    exact ⟨qi, qf, h1, h2, h3, h4, h5, h6, h7⟩
   · cases h
 
 theorem isSome_fillRow (G : List σ) (qi : σ) (row : List (σ × Option Str)) (r : σ) :
